@@ -8,7 +8,7 @@ Code ~ Spec: TLC emits the relation instances (which runs, which coefficients); 
 from .. import relcheck
 
 RELS = ["FFNSPartition", "ZMTotalIsLight", "FONLLParts", "PositivitySum"]
-INVS = ["Inv_C07_FFNS", "Inv_C07_ZM", "Inv_C07_FONLL", "Inv_C07_Pos"]
+INVS = ["Inv_C07_FFNS", "Inv_C07_ZM", "Inv_C07_FONLL", "Inv_C07_Pos", "Inv_C07_Tagged"]
 
 
 def run(ctx):
@@ -18,7 +18,7 @@ def run(ctx):
     q = ctx.quick
     relcheck.mc(ctx, INVS, consts=dict(KINDS={"F2", "FL", "F3", "g1"} if q else {"F2", "FL", "F3", "g1", "gL", "g4"},
                                        PROCS={"EM", "NC", "CC"}, NFZM={3, 4, 5} if q else {3, 4, 5, 6},
-                                       NFFF={3, 4} if q else {3, 4, 5}, FLAVS={"total"}, POSS={0},
+                                       NFFF={3, 4} if q else {3, 4, 5}, FLAVS={"total", "charm", "bottom"}, POSS={0},
                                        TARGETS={"proton", "third"}),
                 subst=dict(ORDERS="ORD_few" if q else "ORD_all"))
     insts = []
@@ -39,9 +39,22 @@ def run(ctx):
         insts += relcheck.emit(ctx, RELS, PROCS={"NC"}, PROJS={"e-"}, KINDS={"F2", "FL", "F3"},
                                SCHEMES={"ZM4", "FFNS4"}, ORDERS={"33"})
     relcheck.drive_and_validate(ctx, "C07", insts)
+    # the partitions carry over to every LINEAR combination of structure functions of one heavyness: the reduced cross sections
+    # (instances of the F2 cell, executed on the cross-section observable - XSHERANC needs F2, FL and F3 of that heavyness)
+    xsi = relcheck.emit(ctx, ["FFNSPartition", "ZMTotalIsLight", "FONLLParts"], PROCS={"NC"} if q else {"NC", "CC"}, PROJS={"e-"} if q else {"e-", "nu"},
+                        KINDS={"F2"}, SCHEMES={"ZM4", "FFNS3", "FONLLS4"} if q else {"ZM4", "ZM5", "FFNS3", "FFNS4", "FFN03", "FONLLS4", "FONLL03"},
+                        ORDERS={"11"} if q else {"11", "22"})
+    for kind in (("XSHERANC",) if q else ("XSHERANC", "XSHERANCAVG", "XSCHORUSCC", "FW")):
+        sel = [i for i in xsi if (i["pt"]["proc"] == "CC") == (kind in ("XSCHORUSCC", "FW"))
+               and (i["pt"]["proc"] != "CC" or abs(i["pt"]["proj"]) == 12) and (i["pt"]["proc"] == "CC" or abs(i["pt"]["proj"]) == 11)]
+        relcheck.drive_and_validate(ctx, "C07", sel, extra=dict(xs_kind=kind))
     # N3LO (fl11 flavour class, a_s^3 heavy): one kinematic point per run keeps it affordable in the quick tier
     n3 = relcheck.emit(ctx, ["PositivitySum", "ZMTotalIsLight", "FFNSPartition"], PROCS={"NC"} if q else {"EM", "NC"}, PROJS={"e-"},
                        KINDS={"F2"} if q else {"F2", "FL"}, SCHEMES={"ZM4"} if q else {"ZM4", "ZM5", "FFNS4"}, ORDERS={"33"})
+    # a flavour-tagged observable on the massless path = the total restricted to the tagged quark's couplings (all orders)
+    n3 += relcheck.emit(ctx, ["TaggedIsRestricted"], PROCS={"NC"} if q else {"EM", "NC"}, PROJS={"e-"}, KINDS={"F2"} if q else {"F2", "FL", "F3"},
+                        FLAVS={"charm"} if q else {"charm", "bottom"}, SCHEMES={"ZM5"} if q else {"ZM4", "ZM5", "ZM6"},
+                        ORDERS={"22", "33"})
     relcheck.drive_and_validate(ctx, "C07", n3, extra=dict(xs=[0.23]))
     if not q:
         # with target-mass corrections switched on the partitions still hold (TMC is linear)
